@@ -944,6 +944,8 @@ class Interp:
         if isinstance(obj, SArr):
             if getattr(obj, 'view_of', None) is not None:
                 raise Unsupported('write through a numpy view')
+            if isinstance(idx, SArr) and idx.kind == 'int' and obj.np and len(obj.leaves) == 1:
+                return self.arr_scatter(obj, idx, val)
             if isinstance(idx, (slice, SArr, tuple, list)):
                 raise Unsupported('slice/fancy assignment')
             i = self.norm_index(idx, obj.n)
@@ -964,6 +966,37 @@ class Interp:
                 self.call_function(m, [idx, val], {})
                 return
         raise Unsupported(f'item assignment on {type(obj).__name__}')
+
+    def arr_scatter(self, obj, idx, val):
+        """numpy `a[idx] = val` for 1-D integer index array idx (assumed contract of numpy fancy assignment):
+        IndexError iff some index is outside [-n, n); otherwise the entry at (normalised) idx[j] receives val[j], the last
+        of equal indices winning, and every position not named by idx keeps its value."""
+        self.trusted.add('numpy fancy-index assignment a[idx] = vals (1-D)')
+        n, m = to_z3(obj.n), to_z3(idx.n)
+        j, j2, k = z3.Int('j!sc'), z3.Int('j2!sc'), z3.Int('k!sc')
+        ix = lambda t: z3.Select(idx.leaves[0], t)
+        nrm = lambda t: z3.If(ix(t) < 0, ix(t) + n, ix(t))
+        in_range = z3.ForAll([j], z3.Implies(z3.And(0 <= j, j < m), z3.And(-n <= ix(j), ix(j) < n)))
+        if not self.branch(in_range):
+            raise PyRaise('IndexError')
+        srt = kind_sort(obj.kind)
+        if isinstance(val, SArr):
+            if len(val.leaves) != 1 or val.kind != obj.kind:
+                raise Unsupported('scatter of a different element kind')
+            if not self.branch(to_z3(val.n) == m):
+                raise PyRaise('ValueError')        # shape mismatch: cannot broadcast
+            vj = lambda t: z3.Select(val.leaves[0], t)
+        else:
+            v0 = self.flat_elem(val, obj.kind)[0]
+            vj = lambda t: v0
+        new = z3.Array(fresh_name('scatter'), z3.IntSort(), srt)
+        old = obj.leaves[0]
+        self.assume(z3.ForAll([j], z3.Implies(
+            z3.And(0 <= j, j < m, z3.ForAll([j2], z3.Implies(z3.And(j < j2, j2 < m), nrm(j2) != nrm(j)))),
+            z3.Select(new, nrm(j)) == vj(j))))
+        self.assume(z3.ForAll([k], z3.Implies(
+            z3.ForAll([j], z3.Implies(z3.And(0 <= j, j < m), nrm(j) != k)), z3.Select(new, k) == z3.Select(old, k))))
+        obj.leaves = [new]
 
     def delitem(self, obj, idx):
         if isinstance(obj, list):
